@@ -1,5 +1,6 @@
 (* C14 — Contact queries round-trip through text and cannot be injected into.
-   Statements only; proofs are in proofs/CqlQuoteProofs.v, CqlLexProofs.v, CqlSimplifyProofs.v, CqlParseProofs.v.
+   Statements only; proofs are in proofs/CqlQuoteProofs.v, CqlLexProofs.v, CqlSimplifyProofs.v, CqlParseProofs.v,
+   CqlRegexProofs.v, CqlGrammarFacts.v, CqlLexPrintProofs.v, CqlParserProofs.v, CqlRoundTripProofs.v.
    Models: model/CqlPrinter.v (Condition.String, BoolCombination.String, Stringify, QuoteValue, Simplify),
    model/CqlParser.v (lexer = the token rules regenerated from antlr/ContactQL.g4 into gen/GrammarCQL.v, run by the
    maximal-munch tokenizer of lib/RegexLM.v; parser; visitor; ParseQuery), lib/Quote.v (strconv.Quote/Unquote).
@@ -9,7 +10,8 @@
    every theorem holds for all of them. *)
 From Coq Require Import List NArith Bool.
 From Verif Require Import lib.Quote lib.RegexLM model.CqlSyntax gen.GrammarCQL model.CqlPrinter model.CqlParser
-  proofs.CqlQuoteProofs proofs.CqlLexProofs proofs.CqlSimplifyProofs proofs.CqlParseProofs.
+  proofs.CqlQuoteProofs proofs.CqlLexProofs proofs.CqlSimplifyProofs proofs.CqlParseProofs
+  proofs.CqlLexPrintProofs proofs.CqlParserProofs proofs.CqlRoundTripProofs.
 Import ListNotations.
 Open Scope N_scope.
 
@@ -46,6 +48,15 @@ Theorem c14_no_injection : forall p v rest,
   /\ literal_value (STRING, quote_value p v) = LVal v.
 Proof. exact no_injection_head. Qed.
 Print Assumptions c14_no_injection.
+
+(* the same inside a template: a condition `property operator <escaped value>` followed by ANY remaining template
+   text lexes to exactly its three tokens and then the tokens of the remainder — for every property that can be
+   written (attribute, fields.<key>, urns.<scheme>), each of the seven operators, every value *)
+Theorem c14_no_injection_condition : forall p pt key o v t, key_ok pt key -> op_ok o ->
+  cql_lex (prop_prefix pt ++ key ++ [32] ++ oper_text o ++ [32] ++ quote_value p v ++ t)
+  = pushl [(PROPERTY, prop_prefix pt ++ key); (COMPARATOR, oper_text o); (STRING, quote_value p v)] (cql_lex t).
+Proof. exact lex_cond_escaped. Qed.
+Print Assumptions c14_no_injection_condition.
 
 (* the lexing half needs no hypothesis at all *)
 Theorem c14_lex_quoted_value : forall p v rest,
@@ -87,3 +98,65 @@ Theorem c14_parse_is_simplified : forall e s root, parse_query e s = QOk root ->
   exists q, root = Some q /\ simplified q /\ simplify q = Some q.
 Proof. exact parse_query_simplified. Qed.
 Print Assumptions c14_parse_is_simplified.
+
+(* -- round trip ---------------------------------------------------------------------------------------------- *)
+
+(* A valid query in normal form, built programmatically with ARBITRARY text values (any valid code-point lists),
+   formats to a text that ParseQuery accepts and turns back into exactly that query: same conditions, operators,
+   values and boolean structure.  Any arity and nesting, both redaction policies, every IsPrint table p with
+   p(newline) = false, every environment e.  [valid_tree e q] asks of each condition: the key can be written as a
+   property (an attribute of the table; for fields and URN schemes a non-empty run of the grammar's key characters),
+   lower-casing leaves key and operator text alone, the operator is one of the seven constants, the value is valid
+   UTF-8, the validator accepts the condition, and under URN redaction a URN condition has an empty value.
+   The proof goes through the whole pipeline of ParseQuery: TrimSpace and the phone-number rewrite leave the text
+   alone, the lexer (regenerated grammar table) yields the expected tokens, the precedence parser rebuilds the
+   tree left-nested, the visitor re-reads every property, operator and literal, and Simplify flattens it to q. *)
+Theorem c14_print_parse : forall p e, p 10 = false -> forall q,
+  valid_tree e q -> simplified q -> parse_query e (stringify p (Some q)) = QOk (Some q).
+Proof. exact print_parse. Qed.
+Print Assumptions c14_print_parse.
+
+(* the hypotheses are satisfiable: a three-level OR/AND/OR tree whose values are an injection attempt
+   (`" OR id = 1 OR name = "`), two backslashes, the keyword OR, bare numbers and the empty value; a field keyed `or` *)
+Example c14_print_parse_example : forall redact,
+  valid_tree (env_example redact ascii_lower) q_example /\ simplified q_example
+  /\ parse_query (env_example redact ascii_lower) (stringify ascii_print (Some q_example)) = QOk (Some q_example).
+Proof. exact q_example_ok. Qed.
+Print Assumptions c14_print_parse_example.
+
+(* FULL STATEMENT (false, see c14_parse_print_parse_refuted): for every text s that ParseQuery accepts,
+   parse_query e (stringify p (parse result)) gives the same query.
+   PARTIAL: it holds when the accepted query is a valid tree.  What is missing: that every accepted query is one —
+   i.e. that the visitor's lower-casing maps key characters to key characters of the grammar and that the schemes
+   of implicit URN conditions are writable keys. *)
+Theorem c14_parse_print_parse_partial : forall p e s q, p 10 = false ->
+  parse_query e s = QOk (Some q) -> valid_tree e q ->
+  parse_query e (stringify p (Some q)) = QOk (Some q).
+Proof. exact parse_print_parse. Qed.
+Print Assumptions c14_parse_print_parse_partial.
+
+(* `fields.X = 1` with X = U+13A0 is accepted; the key is lower-cased to U+AB70 as Go does; the formatted query
+   `fields.<U+AB70> = 1` is a syntax error (listed in KNOWN_FINDINGS.txt,
+   class reparse:property-key-lowercases-outside-grammar-letters) *)
+Theorem c14_parse_print_parse_refuted :
+  let e := env_example false cherokee_lower in
+  let s := [102; 105; 101; 108; 100; 115; 46; 5024; 32; 61; 32; 49] in
+  let q := Cond PField [43888] OpEqual [49] in
+  parse_query e s = QOk (Some q)
+  /\ stringify ascii_print (Some q) = [102; 105; 101; 108; 100; 115; 46; 43888; 32; 61; 32; 49]
+  /\ parse_query e (stringify ascii_print (Some q)) = QSyntax.
+Proof. exact parse_print_parse_counterexample. Qed.
+Print Assumptions c14_parse_print_parse_refuted.
+
+(* the tokens of a formatted tree, whatever follows it after a space, a closing parenthesis or the end *)
+Theorem c14_lex_printed : forall p q, lexable q -> forall t, rest_ok t ->
+  cql_lex (print p q ++ t) = pushl (toks p q) (cql_lex t).
+Proof. exact lex_node. Qed.
+Print Assumptions c14_lex_printed.
+
+(* -- the model's fuel -------------------------------------------------------------------------------------------- *)
+
+(* lexer and parser are total: the out-of-fuel results of the model are unreachable *)
+Theorem c14_parse_query_no_fuel : forall e s, parse_query e s <> QFuel.
+Proof. exact parse_query_no_fuel. Qed.
+Print Assumptions c14_parse_query_no_fuel.
